@@ -1,6 +1,7 @@
 package main
 
 import (
+	"regexp"
 	"fmt"
 	"go/types"
 	"strconv"
@@ -22,7 +23,19 @@ type evalEnv struct {
 	bound map[string]bool
 	owner string // function the contract belongs to (for error messages)
 	pkg   *types.Package
+	quiet bool // no side facts
 }
+
+// nameLoaded: a value read through several frames is a long conditional term; give it a name (not under a binder).
+func (e *Enc) nameLoaded(env *evalEnv, sort, t string) string {
+	if len(env.bound) != 0 {
+		return t
+	}
+	return e.nameTerm("lv", sort, t)
+}
+
+// sideOK: facts about the values met while evaluating may be asserted (not under a binder, not at an arbitrary index).
+func (env *evalEnv) sideOK() bool { return len(env.bound) == 0 && !env.quiet }
 
 func (env *evalEnv) with(name string, b binding) *evalEnv {
 	n := *env
@@ -142,6 +155,23 @@ func (e *Enc) loopEnv(head *ssa.BasicBlock, li *loopInfo, from *ssa.BasicBlock, 
 				if _, known := e.vals[v]; known || isConstOrParam(v) {
 					env.names[n] = binding{e.val(v), v.Type()}
 				}
+			}
+		}
+		// a variable merged at the top of a dominating block: the phi is its value from there on (unless the block
+		// itself redefines it, which the references above already cover)
+		for _, ins := range b.Instrs {
+			phi, ok := ins.(*ssa.Phi)
+			if !ok {
+				break
+			}
+			if phi.Comment == "" {
+				continue
+			}
+			if _, dup := env.names[phi.Comment]; dup {
+				continue
+			}
+			if _, known := e.vals[phi]; known {
+				env.names[phi.Comment] = binding{e.val(phi), phi.Type()}
 			}
 		}
 	}
@@ -270,11 +300,12 @@ func (e *Enc) eval(sx *Sx, env *evalEnv) tv {
 			return tv{Val{"0", "Int"}, nil}
 		}
 		addr := app("elem", app("sarr", x.v.T), app("+", app("soff", x.v.T), i.v.T))
-		if srt := e.sortOf(st.Elem()); (srt == "Ref" || srt == "Slice") && len(env.bound) == 0 {
+		if srt := e.sortOf(st.Elem()); (srt == "Ref" || srt == "Slice") && env.sideOK() {
 			e.loadedRefFacts(env.heap, cellKey(st.Elem()), srt, addr)
 		}
 		lv := e.load(env.heap, addr, nil, st.Elem())
-		if len(env.bound) == 0 {
+		lv = e.nameLoaded(env, e.sortOf(st.Elem()), lv)
+		if env.sideOK() {
 			e.sideFact(env, e.typeFacts(lv, st.Elem()))
 		}
 		return tv{Val{lv, e.sortOf(st.Elem())}, st.Elem()}
@@ -285,11 +316,12 @@ func (e *Enc) eval(sx *Sx, env *evalEnv) tv {
 			e.unsupp("deref: %s is not a pointer", args[0])
 			return x
 		}
-		if srt := e.sortOf(pt.Elem()); (srt == "Ref" || srt == "Slice") && len(env.bound) == 0 {
+		if srt := e.sortOf(pt.Elem()); (srt == "Ref" || srt == "Slice") && env.sideOK() {
 			e.loadedRefFacts(env.heap, cellKey(pt.Elem()), srt, x.v.T)
 		}
 		lv := e.load(env.heap, x.v.T, nil, pt.Elem())
-		if len(env.bound) == 0 {
+		lv = e.nameLoaded(env, e.sortOf(pt.Elem()), lv)
+		if env.sideOK() {
 			e.sideFact(env, e.typeFacts(lv, pt.Elem()))
 		}
 		return tv{Val{lv, e.sortOf(pt.Elem())}, pt.Elem()}
@@ -424,7 +456,7 @@ func (e *Enc) eval(sx *Sx, env *evalEnv) tv {
 	case "consumed":
 		x := e.eval(args[0], env)
 		t := app("select", e.heapGet(env.heap, "$consumed", "Int"), x.v.T)
-		if len(env.bound) == 0 {
+		if env.sideOK() {
 			// assumed: no reader ever delivers 2^62 bytes
 			e.assert(and(app("<=", "0", t), app("<=", t, "4611686018427387904")))
 			e.trustedUsed["assumed: an io.Reader delivers fewer than 2^62 bytes in total (ghost byte counter stays in int64 range)"] = true
@@ -601,11 +633,12 @@ func (e *Enc) autoDeref(x tv, env *evalEnv) tv {
 		if pt, ok := under(x.t).(*types.Pointer); ok {
 			switch under(pt.Elem()).(type) {
 			case *types.Slice, *types.Basic:
-				if srt := e.sortOf(pt.Elem()); (srt == "Ref" || srt == "Slice") && len(env.bound) == 0 {
+				if srt := e.sortOf(pt.Elem()); (srt == "Ref" || srt == "Slice") && env.sideOK() {
 					e.loadedRefFacts(env.heap, cellKey(pt.Elem()), srt, x.v.T)
 				}
 				lv := e.load(env.heap, x.v.T, nil, pt.Elem())
-				if len(env.bound) == 0 {
+				lv = e.nameLoaded(env, e.sortOf(pt.Elem()), lv)
+				if env.sideOK() {
 					e.sideFact(env, e.typeFacts(lv, pt.Elem()))
 				}
 				return tv{Val{lv, e.sortOf(pt.Elem())}, pt.Elem()}
@@ -644,11 +677,12 @@ func (e *Enc) fieldOf(base tv, field string, env *evalEnv) tv {
 		case *types.Array:
 			return tv{Val{addr, "Ref"}, types.NewPointer(ft)}
 		}
-		if srt := e.sortOf(ft); (srt == "Ref" || srt == "Slice") && len(env.bound) == 0 {
+		if srt := e.sortOf(ft); (srt == "Ref" || srt == "Slice") && env.sideOK() {
 			e.loadedRefFacts(env.heap, e.w.fieldKey(name, st, i), srt, addr)
 		}
 		lv := e.loadField(env.heap, base.v.T, name, st, i)
-		if len(env.bound) == 0 {
+		lv = e.nameLoaded(env, e.sortOf(ft), lv)
+		if env.sideOK() {
 			e.sideFact(env, e.typeFacts(lv, ft)) // heap cells hold well-typed values
 		}
 		return tv{Val{lv, e.sortOf(ft)}, ft}
@@ -684,6 +718,9 @@ func (e *Enc) evalSpec(name string, args []*Sx, env *evalEnv) tv {
 	if sf.FoldOp != "" {
 		return e.evalFold(sf, args, env)
 	}
+	if sf.Opaque && !e.defineOpaque {
+		return e.evalOpaque(sf, args, env)
+	}
 	if sf.Def != nil {
 		// defined spec functions are expanded in place (macro): their heap reads then see the caller's frames
 		n := *env
@@ -697,10 +734,17 @@ func (e *Enc) evalSpec(name string, args []*Sx, env *evalEnv) tv {
 			if gt == nil {
 				gt = a.t
 			}
+			if len(env.bound) == 0 && strings.Count(sf.Def.String(), p.Name) > 2 {
+				// the body mentions the parameter several times: pass a name for a long argument, not its text
+				a.v.T = e.nameTerm("sa", a.v.S, a.v.T)
+			}
 			n.names[p.Name] = binding{a.v, gt}
 		}
 		n.owner = "spec " + name
 		r := e.eval(sf.Def, &n)
+		if len(env.bound) == 0 && sf.Ret != "Bool" {
+			r.v.T = e.nameTerm("sv", sf.Ret, r.v.T)
+		}
 		return tv{Val{r.v.T, sf.Ret}, nil}
 	}
 	e.useSpec(sf)
@@ -713,6 +757,124 @@ func (e *Enc) evalSpec(name string, args []*Sx, env *evalEnv) tv {
 		ts = append(ts, e.eval(a, env).v.T)
 	}
 	return tv{Val{app("spec_"+name, ts...), sf.Ret}, nil}
+}
+
+var specRefRe = regexp.MustCompile(`spec\.([A-Za-z0-9_]+)`)
+
+// factsFor: the facts whose opaque functions are all in use in this function, as quantified assertions.
+func (e *Enc) factsFor() []string {
+	var out []string
+	for _, f := range e.cs.Facts {
+		ok := true
+		for _, m := range specRefRe.FindAllStringSubmatch(f.Body.String(), -1) {
+			if sf := e.cs.Specs[m[1]]; sf != nil && sf.Opaque && !e.opaqueUsed[m[1]] {
+				ok = false
+			}
+		}
+		if !ok {
+			continue
+		}
+		if t := e.factText(f); t != "" {
+			out = append(out, t)
+		}
+	}
+	return out
+}
+
+func (e *Enc) factText(f *Fact) string {
+	if e.factCache == nil {
+		e.factCache = map[string]string{}
+	}
+	key := f.Name
+	if e.defineOpaque {
+		key += "#def"
+	}
+	if t, ok := e.factCache[key]; ok {
+		return t
+	}
+	env := &evalEnv{names: map[string]binding{}, heap: e.entryHeap, old: e.entryHeap, owner: "fact " + f.Name, bound: map[string]bool{}}
+	var bs []string
+	for _, v := range f.Vars {
+		env.names[v.Name] = binding{Val{v.Name, v.Sort}, nil}
+		env.bound[v.Name] = true
+		bs = append(bs, fmt.Sprintf("(%s %s)", v.Name, v.Sort))
+	}
+	n := len(e.unsupported)
+	e.inFact = true
+	defer func() { e.inFact = false }()
+	body := e.evalBool(f.Body, env)
+	var pats []string
+	for _, p := range f.Patterns {
+		pats = append(pats, e.eval(p, env).v.T)
+	}
+	if len(e.unsupported) > n {
+		e.unsupported = e.unsupported[:n]
+		e.factCache[key] = ""
+		return ""
+	}
+	t := fmt.Sprintf("(forall (%s) (! %s :pattern (%s)))", strings.Join(bs, " "), body, strings.Join(pats, " "))
+	if e.defineOpaque {
+		t = fmt.Sprintf("(forall (%s) %s)", strings.Join(bs, " "), body)
+	}
+	e.factCache[key] = t
+	return t
+}
+
+// evalOpaque: an application of an opaque pure spec function. Revealed (contract `opt reveal NAME`): the application is
+// also equated with its definition, instance by instance.
+func (e *Enc) evalOpaque(sf *SpecFn, args []*Sx, env *evalEnv) tv {
+	if e.opaqueUsed == nil {
+		e.opaqueUsed = map[string]bool{}
+	}
+	if !e.opaqueUsed[sf.Name] {
+		e.opaqueUsed[sf.Name] = true
+		var ps []string
+		for _, p := range sf.Params {
+			ps = append(ps, p.Sort)
+		}
+		e.specDecls = append(e.specDecls, fmt.Sprintf("(declare-fun spec_%s (%s) %s)", sf.Name, strings.Join(ps, " "), sf.Ret))
+	}
+	if sf.Ret == "B" {
+		e.needB = true
+	}
+	var as []string
+	n := *env
+	n.names = map[string]binding{}
+	for k, b := range env.names {
+		n.names[k] = b
+	}
+	for i, p := range sf.Params {
+		a := e.eval(args[i], env)
+		if len(env.bound) == 0 {
+			a.v.T = e.nameTerm("sa", a.v.S, a.v.T)
+		}
+		as = append(as, a.v.T)
+		n.names[p.Name] = binding{Val{a.v.T, p.Sort}, nil}
+	}
+	term := app("spec_"+sf.Name, as...)
+	revealed := false
+	if e.ct != nil && !e.inFact {
+		for _, r := range strings.Fields(e.ct.Opts["reveal"]) {
+			if r == sf.Name || r == "all" {
+				revealed = true
+			}
+		}
+	}
+	if revealed {
+		n.owner = "spec " + sf.Name
+		body := e.eval(sf.Def, &n)
+		if len(env.bound) != 0 {
+			return tv{Val{body.v.T, sf.Ret}, nil}
+		}
+		if e.foldDone == nil {
+			e.foldDone = map[string]bool{}
+		}
+		if !e.foldDone["reveal:"+term] {
+			e.foldDone["reveal:"+term] = true
+			e.assertDefnFact(app("=", term, body.v.T))
+		}
+	}
+	return tv{Val{term, sf.Ret}, nil}
 }
 
 // evalFold: F(H, args, k) for a fold spec, plus the unfolding of F at k as a side fact.
@@ -739,8 +901,14 @@ func (e *Enc) evalFold(sf *SpecFn, args []*Sx, env *evalEnv) tv {
 	kT := as[len(as)-1]
 	term := app("spec_"+sf.Name, append(append([]string{}, hs...), as...)...)
 	memo := term
+	if len(env.bound) == 0 {
+		term = e.nameTerm("sf", sf.Ret, term)
+	}
 	if e.foldDone == nil {
 		e.foldDone = map[string]bool{}
+	}
+	if e.curBlock != nil {
+		memo = fmt.Sprintf("b%d:%s", e.curBlock.Index, memo) // side facts are guarded by the block they are produced in
 	}
 	if !e.foldDone[memo] {
 		e.foldDone[memo] = true
@@ -764,8 +932,68 @@ func (e *Enc) evalFold(sf *SpecFn, args []*Sx, env *evalEnv) tv {
 		}
 		e.readTrace = saved
 		e.sideFact(env, app("=", term, fmt.Sprintf("(ite (<= %s 0) %s (%s %s %s))", kT, sf.FoldUnit, sf.FoldOp, app("spec_"+sf.Name, prevArgs...), el.v.T)))
+		e.foldFrames(sf, hs, as, &n, env)
 	}
 	return tv{Val{term, sf.Ret}, nil}
+}
+
+// foldInst: one evaluated instance of a fold spec (heaps, arguments, and the environment its elements are read in).
+type foldInst struct {
+	key  string // heaps and arguments without k
+	hs   []string
+	as   []string
+	env  *evalEnv
+}
+
+// foldFrames relates this instance of a fold to the earlier instances of the same fold over other heaps/arguments:
+//   (forall j in [0,m): elem'(j) = elem(j))  =>  F'(m) = F(m)        (m: the index of the earlier instance)
+// (induction over m; the fold is a function of its first m elements only). The quantifier is in negative position, so
+// it is skolemised here: one fresh index per pair.
+func (e *Enc) foldFrames(sf *SpecFn, hs, as []string, n *evalEnv, env *evalEnv) {
+	key := strings.Join(hs, " ") + " | " + strings.Join(as[:len(as)-1], " ")
+	if e.foldInsts == nil {
+		e.foldInsts = map[string][]*foldInst{}
+	}
+	snap := *n
+	snap.heap = n.heap.clone()
+	if n.old != nil {
+		snap.old = n.old.clone()
+	}
+	snap.names = map[string]binding{}
+	for k, b := range n.names {
+		snap.names[k] = b
+	}
+	cur := &foldInst{key: key, hs: hs, as: as, env: &snap}
+	prevs := e.foldInsts[sf.Name]
+	seen := map[string]bool{}
+	cnt := 0
+	for i := len(prevs) - 1; i >= 0 && cnt < 6; i-- {
+		p := prevs[i]
+		pk := p.key + " @ " + p.as[len(p.as)-1]
+		if p.key == key || seen[pk] || strings.Join(p.as[:len(p.as)-1], " ") != strings.Join(as[:len(as)-1], " ") {
+			continue // only the same fold over other heaps
+		}
+		seen[pk] = true
+		cnt++
+		m := p.as[len(p.as)-1]
+		j := e.fresh("foldj", "Int")
+		elAt := func(in *evalEnv) string {
+			c := *in
+			c.names = map[string]binding{}
+			for k, b := range in.names {
+				c.names[k] = b
+			}
+			c.names["j"] = binding{Val{j, "Int"}, types.Typ[types.Int]}
+			// side facts (type invariants of the cells read) hold for every cell of a typed heap, also at an arbitrary index
+			c.owner = "spec " + sf.Name
+			return e.eval(sf.Def, &c).v.T
+		}
+		eNew, eOld := elAt(&snap), elAt(p.env)
+		fNew := app("spec_"+sf.Name, append(append(append([]string{}, hs...), as[:len(as)-1]...), m)...)
+		fOld := app("spec_"+sf.Name, append(append(append([]string{}, p.hs...), p.as[:len(p.as)-1]...), m)...)
+		e.sideFact(env, or(and(app("<=", "0", j), app("<", j, m), app("distinct", eNew, eOld)), app("=", fNew, fOld)))
+	}
+	e.foldInsts[sf.Name] = append(prevs, cur)
 }
 
 // specHeapSort: "F:bt.Tx.Inputs:Slice" style keys carry their sort after the last colon when it is not yet known.
@@ -846,7 +1074,7 @@ func (e *Enc) evalClause(ct *Contract, sx *Sx, env *evalEnv) (string, bool) {
 	t := e.evalBool(sx, env)
 	if len(e.unsupported) > n {
 		e.unsupported = e.unsupported[:n]
-		e.asserts = e.asserts[:na] // side facts emitted while evaluating the dropped clause go with it
+		e.rollback(na) // side facts emitted while evaluating the dropped clause go with it
 		return "true", false
 	}
 	return t, true
